@@ -135,9 +135,60 @@ def one_config(run, cls, kw, rng, idx, mono):
     run.add_twin("%03d_mono" % idx, ir.build_smt(b, d2 + [ir.L("(and (fp.lt {0} {1}) (= {2} {2}) (= {3} {3}))", x, y, o, oy)]), meta=m)
 
 
+SIGMOID_MODES = [("smooth", "quantized_tanh", dict(bits=4)), ("real", "quantized_tanh", dict(bits=4)), ("smooth", "quantized_sigmoid", dict(bits=4))]
+
+
+def sigmoid_modes(run, rng):
+  """qkeras.set_internal_sigmoid(mode) is a process-wide option: quantized_tanh / quantized_sigmoid (not use_real_*) then quantize
+  2*_sigmoid(x)-1 / _sigmoid(x) for the selected internal sigmoid.  The surrogate is traced from the library's own _sigmoid in the
+  same term store, so the clause is: the output is the nearest code to *that* activation (default mode 'hard' is the main lattice)"""
+  import qkeras.quantizers as QZ
+  for mi, (mode, cls, kw) in enumerate(SIGMOID_MODES if not run.quick() else SIGMOID_MODES[:2]):
+    QZ.set_internal_sigmoid(mode)
+    try:
+      fmt = lattice.fixed_format(cls, kw)
+      cfg = "%s [internal sigmoid: %s]" % (qz.cfg_str(cls, kw), mode)
+      q = qz.make(cls, kw)
+      tr = qz.Traced(q, ())
+      b = tr.b
+      x, o = tr.xs()[0], tr.outs()[0]
+      sfn = (lambda t: 2.0 * QZ._sigmoid(t) - 1.0) if cls == "quantized_tanh" else (lambda t: QZ._sigmoid(t))
+      ts = qz.Traced(None, (), builder=b, fn=sfn)
+      u = ts.outs()[0]
+      pts = qz.interesting_points(c01.breakpoints(fmt), rng, n_random=16, scale=3.0)
+      bad = qz.validate_scalar(tr, q, pts)
+      run.validated_points += len(pts)
+      run.validated_graphs += 1
+      if bad:
+        run.inconclusive_("translator mismatch for %s: %s" % (cfg, bad[:3]))
+        continue
+      run.configs.append(cfg)
+      b.close_stubs()
+      dom = c01.domain(x, fmt)
+      m = dict(cls=cls, kw=kw, step=str(fmt["step"]), lo=fmt["lo"], hi=fmt["hi"], clause="nearest", grid=1, sigmoid_mode=mode)
+      run.add("S%02d_nearest" % mi, ir.build_smt(b, dom + [ir.L("(or {0} {1})", c01.code_violation(o, fmt), nearest_violation(o, u, fmt, 1))]), meta=m)
+      run.add_twin("S%02d_nearest" % mi, ir.build_smt(b, dom + [ir.L("(= {0} {0})", o), ir.L("(= {0} {0})", u)]), meta=m)
+    finally:
+      QZ.set_internal_sigmoid("hard")
+
+
 def replay_concrete(rep):
   import tensorflow as tf
   cls, kw, clause = rep["cls"], rep["kw"], rep["clause"]
+  if rep.get("sigmoid_mode"):
+    import qkeras.quantizers as QZ
+    QZ.set_internal_sigmoid(rep["sigmoid_mode"])
+    try:
+      fmt = lattice.fixed_format(cls, kw)
+      q = qz.make(cls, kw)
+      x = ir.bits_f32(rep["x_bits"])
+      out = np.float32(np.asarray(q(tf.constant(np.float32(x), tf.float32))).reshape(-1)[0])
+      s = np.float32(np.asarray(QZ._sigmoid(tf.constant(np.float32(x), tf.float32))).reshape(-1)[0])
+      uv = np.float32(np.float32(2.0) * s - np.float32(1.0)) if cls == "quantized_tanh" else s
+      why = c01.exact_check(out, fmt) or exact_nearest(out, uv, fmt, 1)
+      return why is not None, dict(x=float(x), out=float(out), surrogate=float(uv), sigmoid_mode=rep["sigmoid_mode"], cfg=qz.cfg_str(cls, kw), why=why)
+    finally:
+      QZ.set_internal_sigmoid("hard")
   fmt = lattice.fixed_format(cls, kw)
   q = qz.make(cls, kw)
   call = lambda v: np.float32(np.asarray(q(tf.constant(np.float32(v), tf.float32))).reshape(-1)[0])
@@ -191,6 +242,8 @@ def triage(run):
       continue
     if r.verdict == "sat":
       rep = dict(cls=o.meta["cls"], kw=o.meta["kw"], clause=o.meta["clause"], x_bits=r.model.get("x_b"), y_bits=r.model.get("y_b"))
+      if o.meta.get("sigmoid_mode"):
+        rep["sigmoid_mode"] = o.meta["sigmoid_mode"]
       if rep["x_bits"] is None:
         run.inconclusive_("%s: sat without model" % o.oid)
         continue
@@ -224,6 +277,10 @@ def run(tier, seed):
     pool = [c for c in cfgs if c[1].get("bits", 8) <= 6 and not c[1].get("use_real_tanh") and not c[1].get("use_real_sigmoid")]
     rr.shuffle(pool)
     mono = MONO_QUICK + pool[:44]
+  try:
+    sigmoid_modes(r, rng)
+  except tfg.Unsupported as e:
+    r.inconclusive_("cannot translate a sigmoid-mode configuration: %s" % (e,))
   r.functions = ["qkeras.quantizers._round_through", "quantized_bits.__call__", "quantized_linear._scale_clip_and_round",
                  "quantized_relu.__call__", "quantized_tanh.__call__", "quantized_sigmoid.__call__"]
   r.bounds = ["lattice of C01 (%d configurations this run); input = one symbolic float32 below 2^24 steps" % len(cfgs),
@@ -231,6 +288,8 @@ def run(tier, seed):
               "ties either way" % TOL_LOG2,
               "monotonicity: direct two-copy query on %d configurations (bits <= 6); idempotence: 'every in-range code is a fixed point' "
               "for linear / plain-ReLU formats, combined with the code-membership clause proved in the same query set" % len(mono),
+              "process-wide internal sigmoid (set_internal_sigmoid 'smooth' / 'real'): quantized_tanh / quantized_sigmoid(bits=4) are the nearest code "
+              "to the activation built from the library's own _sigmoid, traced into the same term store (the main lattice runs in the default 'hard' mode)",
               "quantized_relu(use_sigmoid=1): reachable codes are every other code, nearest is stated on the 2*step grid; "
               "use_sigmoid with a leaky slope is outside the claim"]
   r.assumptions = ["platform model and contract stubs as in C01",
